@@ -50,27 +50,36 @@ type command struct {
 // When we find a successful result, we decrement *ctr.
 func workerSearch(results []interface{}, ctrChanged chan<- struct{}, f func(int) interface{}, ctr *int64) {
 	for atomic.LoadInt64(ctr) > 0 {
+		yield("ws:loaded")
 		res := f(0)
 		if res == nil {
 			continue
 		}
+		yield("ws:before-dec")
 		i := atomic.AddInt64(ctr, -1)
+		yield("ws:after-dec")
 		if i >= 0 {
 			results[i] = res
 		}
+		yield("ws:before-send")
 		ctrChanged <- struct{}{}
+		yield("ws:after-send")
 	}
 }
 
 // worker starts up a new worker, listening to commands, and producing results
 func worker(commands <-chan command) {
 	for c := range commands {
+		yield("w:got-cmd")
 		if c.search {
 			workerSearch(c.results, c.ctrChanged, c.f, c.ctr)
 		} else {
 			c.results[c.i] = c.f(c.i)
+			yield("w:before-dec")
 			atomic.AddInt64(c.ctr, -1)
+			yield("w:after-dec")
 			c.ctrChanged <- struct{}{}
+			yield("w:after-send")
 		}
 	}
 }
@@ -145,15 +154,20 @@ func (p *Pool) Search(count int, f func() interface{}) []interface{} {
 	}
 	cmdI := 0
 	for cmdI < p.workerCount {
+		yield("c:before-select")
 		select {
 		case p.commands <- cmd:
 			cmdI++
 		case <-ctrChanged:
 		}
+		yield("c:after-select")
 	}
 	for atomic.LoadInt64(&ctr) > 0 {
+		yield("c:before-recv")
 		<-ctrChanged
+		yield("c:after-recv")
 	}
+	yield("c:done")
 
 	return results
 }
@@ -183,15 +197,20 @@ func (p *Pool) Parallelize(count int, f func(int) interface{}) []interface{} {
 		// We won't be able to send all the commands without blocking, so we make
 		// sure to interleave picking off the results of workers to free them up
 		// to receive our commands
+		yield("c:before-select")
 		select {
 		case p.commands <- cmd:
 			cmdI++
 		case <-ctrChanged:
 		}
+		yield("c:after-select")
 	}
 	for atomic.LoadInt64(&ctr) > 0 {
+		yield("c:before-recv")
 		<-ctrChanged
+		yield("c:after-recv")
 	}
+	yield("c:done")
 
 	return results
 }
